@@ -6,6 +6,7 @@ import (
 	"bufio"
 	"encoding/json"
 	"fmt"
+	"go/constant"
 	"go/types"
 	"io"
 	"os"
@@ -130,6 +131,53 @@ func mentionsTypeParam(t types.Type, depth int) bool {
 	return false
 }
 
+// constMisfit: why a constant cannot be the value of a result declared with type t ("" if it can).  Go only lets a
+// function return a constant expression that is representable in the result type, so a reported constant of another
+// kind is not a possible result.  Interfaces hold any constant (in its default type); type parameters are not judged.
+func constMisfit(v constant.Value, t types.Type) string {
+	if _, ok := t.(*types.TypeParam); ok || mentionsTypeParam(t, 0) {
+		return ""
+	}
+	switch u := t.Underlying().(type) {
+	case *types.Interface:
+		return ""
+	case *types.Basic:
+		info := u.Info()
+		switch v.Kind() {
+		case constant.Bool:
+			if info&types.IsBoolean != 0 {
+				return ""
+			}
+		case constant.String:
+			if info&types.IsString != 0 {
+				return ""
+			}
+		case constant.Int:
+			if info&types.IsNumeric != 0 {
+				return ""
+			}
+		case constant.Float:
+			if info&(types.IsFloat|types.IsComplex) != 0 {
+				return ""
+			}
+			if info&types.IsInteger != 0 && constant.ToInt(v).Kind() == constant.Int {
+				return ""
+			}
+		case constant.Complex:
+			if info&types.IsComplex != 0 {
+				return ""
+			}
+			if info&types.IsNumeric != 0 && constant.Sign(constant.Imag(v)) == 0 {
+				return ""
+			}
+		default:
+			return ""
+		}
+		return "a " + strings.ToLower(v.Kind().String()) + " constant"
+	}
+	return "constants are values of basic types"
+}
+
 // judgeResults: the clauses of C14 that need no model — shape, assignability, stability.
 func judgeResults(p gengotypes.Package, f *types.Func) (out string, n int, lens []int, verdict string) {
 	defer func() {
@@ -154,6 +202,10 @@ func judgeResults(p gengotypes.Package, f *types.Func) (out string, n int, lens 
 		want := sig.Results().At(i).Type()
 		for _, a := range alts {
 			if a.Value != nil {
+				// a constant is a possible result only if a value of the declared type can hold it
+				if why := constMisfit(a.Value, want); why != "" {
+					return out, n, lens, fmt.Sprintf("result %d: the constant %s is not a possible value of the declared %s (%s)", i, a.Value.ExactString(), want, why)
+				}
 				continue
 			}
 			if a.Type == nil {
